@@ -36,7 +36,9 @@ func goEnv() []string {
 }
 
 // load parses contracts, generates overlays, type-checks and builds SSA for the given package dirs.
-func load(repo string, rels []string, specDir string) (*Loaded, error) {
+type pkgExtra struct{ Spec, Contracts string }
+
+func load(repo string, rels []string, specDir string, extras ...map[string]pkgExtra) (*Loaded, error) {
 	ld := &Loaded{pcs: map[string]*PkgContracts{}, overlay: map[string]string{}}
 	overlay := map[string][]byte{}
 	var patterns []string
@@ -44,6 +46,16 @@ func load(repo string, rels []string, specDir string) (*Loaded, error) {
 		pc, files, _, err := loadPkgContracts(repo, rel, relToImport(rel))
 		if err != nil {
 			return nil, err
+		}
+		if len(extras) > 0 {
+			if ex, ok := extras[0][rel]; ok {
+				pc.ExtraSpec = ex.Spec
+				tmp := filepath.Join(scratch(), "extra-"+strings.ReplaceAll(rel, "/", "_")+".go")
+				os.WriteFile(tmp, []byte("package "+pc.Name+"\n"+ex.Contracts), 0o644)
+				if err := parseContractFile(tmp, pc); err != nil {
+					return nil, err
+				}
+			}
 		}
 		ld.pcs[rel] = pc
 		txt, err := genOverlay(pc, files, specDir)
@@ -90,7 +102,7 @@ func load(repo string, rels []string, specDir string) (*Loaded, error) {
 		}
 	}
 	eng := &Engine{prog: prog, pkgs: map[string]*ssa.Package{}, contracts: map[*ssa.Function]*FuncContract{}, cfuncs: map[string]*ssa.Function{},
-		closed: map[string][]types.Type{}, specPure: map[*ssa.Function]bool{}, repo: repo, modulePrefix: modulePath, defined: map[string]bool{}, trustedUsed: map[string]bool{}}
+		closed: map[string][]types.Type{}, specPure: map[*ssa.Function]bool{}, repo: repo, modulePrefix: modulePath, defined: map[string]bool{}, trustedUsed: map[string]bool{}, ifConvert: true}
 	ld.eng = eng
 	packages.Visit(pkgs, nil, func(p *packages.Package) { eng.loadedPkgs = append(eng.loadedPkgs, p) })
 	for _, p := range prog.AllPackages() {
@@ -108,7 +120,7 @@ func load(repo string, rels []string, specDir string) (*Loaded, error) {
 				continue
 			}
 			pos := prog.Fset.Position(fn.Pos())
-			if strings.HasSuffix(pos.Filename, "zz_govc_gen.go") || strings.HasSuffix(pos.Filename, "zz_contracts_verif.go") {
+			if strings.HasSuffix(pos.Filename, "zz_govc_gen.go") || strings.HasSuffix(pos.Filename, "zz_contracts_verif.go") || strings.HasPrefix(fn.Name(), "govc__") {
 				eng.markSpec(fn)
 				if strings.HasPrefix(fn.Name(), "govc__") {
 					eng.cfuncs[fn.Name()] = fn
